@@ -409,33 +409,7 @@ func (t *T) Template(k int) *Node {
 		if t.R.Intn(4) == 0 {
 			ns = []int{255, 256, 257, 1023, 1024, 1025, 1100}
 		}
-		n := ns[t.R.Intn(len(ns))]
-		a, b := t.l(), t.l()
-		for b == a {
-			b = rune('0' + t.R.Intn(10))
-		}
-		var core *Node
-		switch t.R.Intn(6) {
-		case 0:
-			core = Cat(Rep(L(a), n, n), L(b))
-		case 1:
-			core = Cat(t.set(), Rep(L(a), n, n), L(b))
-		case 2:
-			core = Cat(Rep(NC(S(string([]rune{a, b}))), n, n), S(t.word(1)))
-		case 3:
-			core = Cat(Rep(NC(L(a)), n, n), L(b), L(b))
-		case 4:
-			if n > 300 {
-				n = 300
-			}
-			core = Cat(S(t.word(n)), t.unit()) // a literal of n runes
-		default:
-			core = Cat(Dot(), Rep(Cls(false, CR(a)), n, n), L(b))
-		}
-		if t.R.Intn(3) == 0 {
-			return Cat(&Node{K: KOptGroup, On: "i", Kids: []*Node{core}}, t.tail())
-		}
-		return Cat(core, t.tail())
+		return t.Threshold(ns[t.R.Intn(len(ns))], t.R.Intn(6), t.R.Intn(3) == 0)
 	case "case-like-punctuation-set":
 		// ASCII punctuation pairs that differ by 0x20 like letters do ([ and {, \ and |, ] and },
 		// ^ and ~, @ and `): not case pairs, whatever a bit trick says
@@ -492,4 +466,47 @@ func (n *Node) fix() *Node {
 		n.Max = n.Min
 	}
 	return n
+}
+
+// ThresholdCounts are the counts the threshold family walks through.
+var ThresholdCounts = []int{3, 4, 5, 6, 7, 8, 9, 19, 20, 21, 22, 31, 32, 33, 49, 50, 51, 63, 64, 65, 255, 256, 257, 1023, 1024, 1025, 1100}
+
+// ThresholdCombos is the number of (count, shape, ignore-case) combinations of the family.
+func ThresholdCombos() int { return len(ThresholdCounts) * 6 * 2 }
+
+// ThresholdNth builds combination k of the threshold family (deterministic enumeration: the
+// large counts under IgnoreCase are rare in a random draw).
+func (t *T) ThresholdNth(k int) *Node {
+	k %= ThresholdCombos()
+	return t.Threshold(ThresholdCounts[k%len(ThresholdCounts)], (k/len(ThresholdCounts))%6, k/(len(ThresholdCounts)*6) == 1)
+}
+
+// Threshold builds one member of the threshold family: count n, shape 0..5, optionally under (?i:...).
+func (t *T) Threshold(n, shape int, ic bool) *Node {
+	a, b := t.l(), t.l()
+	for b == a {
+		b = rune('0' + t.R.Intn(10))
+	}
+	var core *Node
+	switch shape {
+	case 0:
+		core = Cat(Rep(L(a), n, n), L(b))
+	case 1:
+		core = Cat(t.set(), Rep(L(a), n, n), L(b))
+	case 2:
+		core = Cat(Rep(NC(S(string([]rune{a, b}))), n, n), S(t.word(1)))
+	case 3:
+		core = Cat(Rep(NC(L(a)), n, n), L(b), L(b))
+	case 4:
+		if n > 300 {
+			n = 300
+		}
+		core = Cat(S(t.word(n)), t.unit()) // a literal of n runes
+	default:
+		core = Cat(Dot(), Rep(Cls(false, CR(a)), n, n), L(b))
+	}
+	if ic {
+		return Cat(&Node{K: KOptGroup, On: "i", Kids: []*Node{core}}, t.tail())
+	}
+	return Cat(core, t.tail())
 }
